@@ -143,7 +143,7 @@ class Roles:
             return "COPY(%s)" % inner
         if k == "some":
             inner = self.of_origin(o[1])
-            if inner in ("NEXT(VEC)",) or inner.startswith("NEXT(Range") or inner.startswith("NEXT(REV(CHARS("):
+            if inner in ("NEXT(VEC)", "NEXT(REV(VEC))") or inner.startswith("NEXT(Range") or inner.startswith("NEXT(REV(CHARS("):
                 return "ELEM"
             if inner.startswith("NEXT("):
                 return "ELEM<%s>" % inner[5:-1]
